@@ -88,13 +88,11 @@ def advance (s : State) (t : Nat) (th : Thread) (evs : List Event) : Nat → Sta
       | g :: grest, p :: prest =>
         if g < p then
           let h := hidOf t g
-          let (s1, _) := stamp s h
-          (s1, { th with got := grest, park := .gRelease h .prog }, evs)
+          ((stamp s h).1, { th with got := grest, park := .gRelease h .prog }, evs)
         else (s, { th with pend := prest, park := .gCancel (hidOf t p) }, evs)
       | g :: grest, [] =>
         let h := hidOf t g
-        let (s1, _) := stamp s h
-        (s1, { th with got := grest, park := .gRelease h .prog }, evs)
+        ((stamp s h).1, { th with got := grest, park := .gRelease h .prog }, evs)
       | [], p :: prest => (s, { th with pend := prest, park := .gCancel (hidOf t p) }, evs)
     | st :: rest =>
       match st with
@@ -102,25 +100,22 @@ def advance (s : State) (t : Nat) (th : Thread) (evs : List Event) : Nat → Sta
         (s, { th with prog := rest, park := .gLookup th.nslot v k limit, nslot := th.nslot + 1 }, evs)
       | .op slot g =>
         if th.got.contains slot then
-          let (s1, o) := gop s (hidOf t slot) g
-          advance s1 t { th with prog := rest } (evs ++ [.op slot o]) fuel
+          advance (gop s (hidOf t slot) g).1 t { th with prog := rest } (evs ++ [.op slot (gop s (hidOf t slot) g).2]) fuel
         else advance s t { th with prog := rest } (evs ++ [.skip]) fuel
       | .drop slot =>
         if th.got.contains slot then
           let h := hidOf t slot
-          let (s1, _) := stamp s h
-          (s1, { th with prog := rest, got := th.got.erase slot, park := .gRelease h .prog }, evs)
+          ((stamp s h).1, { th with prog := rest, got := th.got.erase slot, park := .gRelease h .prog }, evs)
         else advance s t { th with prog := rest } (evs ++ [.skip]) fuel
       | .alock k =>
         (s, { th with prog := rest, park := .gLookupPoll th.nslot k, nslot := th.nslot + 1 }, evs)
       | .apoll slot =>
         if th.pend.contains slot then
-          let (s1, o) := acquire s (hidOf t slot)
-          match o with
+          match (acquire s (hidOf t slot)).2 with
           | .bool true =>
-            advance s1 t { th with prog := rest, pend := th.pend.erase slot, got := insertSlot slot th.got }
+            advance (acquire s (hidOf t slot)).1 t { th with prog := rest, pend := th.pend.erase slot, got := insertSlot slot th.got }
               (evs ++ [.poll slot true]) fuel
-          | _ => advance s1 t { th with prog := rest } (evs ++ [.poll slot false]) fuel
+          | _ => advance (acquire s (hidOf t slot)).1 t { th with prog := rest } (evs ++ [.poll slot false]) fuel
         else advance s t { th with prog := rest } (evs ++ [.skip]) fuel
       | .acancel slot =>
         if th.pend.contains slot then
@@ -138,9 +133,7 @@ def processCands (s : State) (th : Thread) (cands : List Nat) (slot : Nat) (v : 
   match cands with
   | [] => (s, { th with park := .gLookup slot v k (some n) }, evs)
   | c :: rest =>
-    let (s1, _) := gop s c .remove
-    let (s2, _) := stamp s1 c
-    (s2, { th with park := .gRelease c (.evict rest slot v k n) }, evs)
+    ((stamp (gop s c .remove).1 c).1, { th with park := .gRelease c (.evict rest slot v k n) }, evs)
 
 def isFail : Out → Bool
   | .panic _ => true
@@ -156,34 +149,34 @@ def stepThread (s : State) (t : Nat) (th : Thread) : State × Thread × List Eve
     let h := hidOf t slot
     match limit with
     | none =>
-      let (s1, o) := lookup s h k
-      if isFail o then (s1, { th with park := .done }, [.fail o]) else (s1, { th with park := .key slot v }, [])
+      let r := lookup s h k
+      if isFail r.2 then (r.1, { th with park := .done }, [.fail r.2]) else (r.1, { th with park := .key slot v }, [])
     | some n =>
-      let (s1, o) := step s (.limitLookup h k n (List.range' (candBase t th.ncand) supplyLen))
-      match o with
+      let r := step s (.limitLookup h k n (List.range' (candBase t th.ncand) supplyLen))
+      match r.2 with
       | .list cands =>
-        let evs := [Event.ev (cands.map fun c => (c, keyOf s1 c))]
-        processCands s1 { th with ncand := th.ncand + cands.length } cands slot v k n evs
-      | .unit => (s1, { th with park := .key slot v }, [])
-      | o => (s1, { th with park := .done }, [.fail o])
+        let evs := [Event.ev (cands.map fun c => (c, keyOf r.1 c))]
+        processCands r.1 { th with ncand := th.ncand + cands.length } cands slot v k n evs
+      | .unit => (r.1, { th with park := .key slot v }, [])
+      | o => (r.1, { th with park := .done }, [.fail o])
   | .gLookupPoll slot k =>
-    let (s1, o) := lookup s (hidOf t slot) k
-    if isFail o then (s1, { th with park := .done }, [.fail o]) else (s1, { th with park := .keyPoll slot }, [])
+    let r := lookup s (hidOf t slot) k
+    if isFail r.2 then (r.1, { th with park := .done }, [.fail r.2]) else (r.1, { th with park := .keyPoll slot }, [])
   | .keyPoll slot =>
     let h := hidOf t slot
     match s.hs h with
     | some hd =>
       if hd.st = .holding then gotGuard s t th slot [] else
-      let (s1, o) := enqueue s h
-      match o with
-      | .bool true => gotGuard s1 t th slot []
+      let r := enqueue s h
+      match r.2 with
+      | .bool true => gotGuard r.1 t th slot []
       | .bool false =>
-        advance s1 t { th with pend := insertSlot slot th.pend } [.lockPending slot] (fuelOf th)
-      | o => (s1, { th with park := .done }, [.fail o])
+        advance r.1 t { th with pend := insertSlot slot th.pend } [.lockPending slot] (fuelOf th)
+      | o => (r.1, { th with park := .done }, [.fail o])
     | none => (s, { th with park := .done }, [.fail .bad])
   | .gCancel h =>
-    let (s1, o) := cancel s h
-    if isFail o then (s1, { th with park := .done }, [.fail o]) else advance s1 t th [] (fuelOf th)
+    let r := cancel s h
+    if isFail r.2 then (r.1, { th with park := .done }, [.fail r.2]) else advance r.1 t th [] (fuelOf th)
   | .key slot v =>
     let h := hidOf t slot
     match s.hs h with
@@ -191,39 +184,35 @@ def stepThread (s : State) (t : Nat) (th : Thread) : State × Thread × List Eve
       if hd.st = .holding then gotGuard s t th slot [] else
       match v with
       | .wait =>
-        let (s1, o) := enqueue s h
-        match o with
-        | .bool true => gotGuard s1 t th slot []
-        | .bool false => (s1, { th with park := .blocked slot }, [])
-        | o => (s1, { th with park := .done }, [.fail o])
+        let r := enqueue s h
+        match r.2 with
+        | .bool true => gotGuard r.1 t th slot []
+        | .bool false => (r.1, { th with park := .blocked slot }, [])
+        | o => (r.1, { th with park := .done }, [.fail o])
       | .try =>
-        let (s1, o) := tryKey s h
-        match o with
-        | .bool true => gotGuard s1 t th slot []
-        | .bool false => (s1, { th with park := .gCleanup slot }, [])
-        | o => (s1, { th with park := .done }, [.fail o])
+        let r := tryKey s h
+        match r.2 with
+        | .bool true => gotGuard r.1 t th slot []
+        | .bool false => (r.1, { th with park := .gCleanup slot }, [])
+        | o => (r.1, { th with park := .done }, [.fail o])
     | none => (s, { th with park := .done }, [.fail .bad])
   | .blocked slot =>
-    let (s1, o) := acquire s (hidOf t slot)
-    match o with
-    | .bool true => gotGuard s1 t th slot []
-    | _ => (s1, th, [])
+    let r := acquire s (hidOf t slot)
+    match r.2 with
+    | .bool true => gotGuard r.1 t th slot []
+    | _ => (r.1, th, [])
   | .gCleanup slot =>
-    let (s1, o) := cleanupFailed s (hidOf t slot)
-    if isFail o then (s1, { th with park := .done }, [.fail o]) else
-    advance s1 t th [.lock slot false] (fuelOf th)
+    let r := cleanupFailed s (hidOf t slot)
+    if isFail r.2 then (r.1, { th with park := .done }, [.fail r.2]) else
+    advance r.1 t th [.lock slot false] (fuelOf th)
   | .gRelease h c =>
-    let (s1, o) := release s h
-    if isFail o then (s1, { th with park := .done }, [.fail o]) else
+    let r := release s h
+    if isFail r.2 then (r.1, { th with park := .done }, [.fail r.2]) else
     match c with
-    | .prog => advance s1 t th [] (fuelOf th)
-    | .evict rest slot v k n => processCands s1 th rest slot v k n []
-  | .gCount =>
-    let (s1, o) := count s
-    advance s1 t th [.count o] (fuelOf th)
-  | .gKeys =>
-    let (s1, o) := keys s
-    advance s1 t th [.keys o] (fuelOf th)
+    | .prog => advance r.1 t th [] (fuelOf th)
+    | .evict rest slot v k n => processCands r.1 th rest slot v k n []
+  | .gCount => advance (count s).1 t th [.count (count s).2] (fuelOf th)
+  | .gKeys => advance (keys s).1 t th [.keys (keys s).2] (fuelOf th)
   | .done => (s, th, [])
 
 def runnable (s : State) (t : Nat) (th : Thread) : Bool :=
@@ -250,8 +239,8 @@ def Sched.step (sc : Sched) (t : Nat) : Sched × Option (List Event) :=
   | none => (sc, none)
   | some th =>
     if runnable sc.s t th then
-      let (s1, th1, evs) := stepThread sc.s t th
-      ({ s := s1, threads := sc.threads.set t th1 }, some evs)
+      let r := stepThread sc.s t th
+      ({ s := r.1, threads := sc.threads.set t r.2.1 }, some r.2.2)
     else (sc, none)
 
 end Lockable
